@@ -294,8 +294,21 @@ func (s *seqRT) ruleIterIndex(ctor, argName string, boundOf func(operand AV) str
 	// step
 	st, r := info.symbolicObj()
 	outs := s.runMethod(st, info.moveNext, r)
+	if len(outs) == 2 {
+		// the guarded form: `if pos >= bound { return false }; key = pos; pos++; return true`
+		s.iterIndexGuarded(info, rule, ctor, argName, opField, keyV, boundOf, outs, r)
+		if elemCheck {
+			valV := pairField(curOuts[0].Ret[0], "Val")
+			want := "⟨F:" + opField + "[" + canon(keyV) + "]⟩"
+			want2 := "⟨F:" + opField + "[" + keyV.String() + "]⟩"
+			c.check(canon(valV) == want || canon(valV) == want2, "ITER.LIVE", "seq."+ctor+" Current().Val", s.w.FnPos(info.current),
+				"value is read from the operand's backing array at call time (live element read)",
+				"expected the element "+want+" read at call time; got "+canon(valV))
+		}
+		return
+	}
 	if len(outs) != 1 || outs[0].Panicked || len(outs[0].Ret) != 1 {
-		c.bad(rule, "seq."+ctor+" MoveNext step", pos, fmt.Sprintf("MoveNext on a symbolic state has %d paths; expected one straight-line update", len(outs)))
+		c.bad(rule, "seq."+ctor+" MoveNext step", pos, fmt.Sprintf("MoveNext on a symbolic state has %d paths; expected one straight-line update or the guarded form (stop / advance)", len(outs)))
 		return
 	}
 	after := outs[0].St.Obj(r)
@@ -339,6 +352,98 @@ func (s *seqRT) ruleIterIndex(ctor, argName string, boundOf func(operand AV) str
 			"value is read from the operand's backing array at call time (live element read)",
 			"expected the element "+want+" read at call time; got "+canon(valV))
 	}
+}
+
+// condForm normalises a path condition over integers to "X < 0" (X linear) and returns X.
+func condForm(cd Cond) (linearForm, bool) {
+	v, truth := cd.V, cd.Truth
+	for {
+		e, ok := v.(Expr)
+		if ok && e.Op == "!" && len(e.Args) == 1 {
+			v, truth = e.Args[0], !truth
+			continue
+		}
+		break
+	}
+	x, ok := guardForm(v)
+	if !ok {
+		return linearForm{}, false
+	}
+	if !truth { // not (x < 0)  <=>  -x - 1 < 0
+		n := linearForm{terms: map[string]int64{}, c: -x.c - 1}
+		for k, t := range x.terms {
+			n.terms[k] = -t
+		}
+		x = n
+	}
+	return x, true
+}
+
+// iterIndexGuarded: the index iterator written with a stop test in front of the update. Induction over the
+// position P read off the stop test (stop <=> P >= bound): P starts at 0; an advance delivers Key = P and
+// moves P to P+1, leaving the operand alone; a stop changes nothing. So the keys are 0, 1, 2, ... and the
+// iteration ends exactly when P reaches the bound — for every operand.
+func (s *seqRT) iterIndexGuarded(info *iterInfo, rule, ctor, argName, opField string, keyV AV, boundOf func(AV) string, outs []Outcome, r Ref) {
+	c := s.c
+	pos := s.w.FnPos(info.moveNext)
+	var stop, adv *Outcome
+	for i := range outs {
+		o := &outs[i]
+		if o.Panicked || len(o.Ret) != 1 {
+			c.bad(rule, "seq."+ctor+" MoveNext step", pos, "MoveNext can panic on a symbolic state")
+			return
+		}
+		if b, known := asBool(o.Ret[0]); known && !b && stop == nil {
+			stop = o
+		} else if known && b && adv == nil {
+			adv = o
+		}
+	}
+	if stop == nil || adv == nil || len(stop.St.Conds) != 1 {
+		c.bad(rule, "seq."+ctor+" MoveNext step", pos, "expected one path that reports false under a single stop test and one that advances and reports true")
+		return
+	}
+	bound := boundOf(Sym{Name: "F:" + opField})
+	posOf := func(cd Cond, boundAtom string) (linearForm, bool) { // stop <=> bound - P - 1 < 0
+		x, ok := condForm(cd)
+		if !ok {
+			return linearForm{}, false
+		}
+		p := linearForm{terms: map[string]int64{boundAtom: 1}, c: -x.c - 1}
+		for k, t := range x.terms {
+			p.terms[k] -= t
+		}
+		if p.terms[boundAtom] != 0 {
+			return linearForm{}, false
+		}
+		delete(p.terms, boundAtom)
+		return p, true
+	}
+	P, okP := posOf(stop.St.Conds[0], bound)
+	if !okP {
+		c.bad(rule, "seq."+ctor+" step", pos, "the stop test is not of the form position >= "+bound+": "+condCanon(stop.St.Conds[0]))
+		return
+	}
+	after := ff(adv.St.Obj(r))
+	keyNext, okK := linForm(substFields(keyV, after))
+	P1, okP1 := posOf(Cond{V: substFields(stop.St.Conds[0].V, after), Truth: stop.St.Conds[0].Truth}, bound)
+	stepOK := okK && okP1 && keyNext.equal(P) && P1.equal(P.plus(1)) && sameAV(after[opField], Sym{Name: "F:" + opField})
+	for _, n := range info.fields {
+		if !sameAV(ff(stop.St.Obj(r))[n], Sym{Name: "F:" + n}) {
+			stepOK = false
+		}
+	}
+	c.check(stepOK, rule, "seq."+ctor+" step", pos,
+		"MoveNext: stops iff position >= "+bound+" (changing nothing); otherwise key = position, position' = position+1, operand untouched",
+		fmt.Sprintf("expected key' = %s and position' = %s; got key' = %s, position' = %s", P, P.plus(1), canon(substFields(keyV, after)), P1))
+	// base
+	base := ff(info.base.Obj(info.obj))
+	bound0 := boundOf(Sym{Name: argName})
+	P0, ok0 := posOf(Cond{V: substFields(stop.St.Conds[0].V, base), Truth: stop.St.Conds[0].Truth}, bound0)
+	zero := linearForm{terms: map[string]int64{}}
+	c.check(ok0 && P0.equal(zero), rule, "seq."+ctor+" first advance", pos,
+		"the position starts at 0: the first key is 0 and the loop is entered iff 0 < "+bound0+" (nothing for an empty / non-positive operand)",
+		fmt.Sprintf("initial position is %s", P0))
 }
 
 func (s *seqRT) ruleIterString() {
